@@ -42,7 +42,7 @@ pub fn run(ctx: &mut Ctx) {
     for (n, ok) in r2::selftest() {
         ctx.selftest(&n, ok);
     }
-    ctx.require(&["annex_kat", "fixed_nonce_exact", "free_nonce", "ref_made_accepted", "openssl_made_accepted", "id_default", "id_explicit", "id_empty", "id_8191", "id_too_long", "id_non_ascii_utf8", "msg_empty", "edge_key", "random_key", "e_ge_n", "key_from_constructor", "key_from_gen_keypair", "key_with_jacobian_public_point"]);
+    ctx.require(&["annex_kat", "fixed_nonce_exact", "free_nonce", "ref_made_accepted", "openssl_made_accepted", "id_default", "id_explicit", "id_empty", "id_8191", "id_too_long", "id_non_ascii_utf8", "msg_empty", "edge_key", "random_key", "e_ge_n", "key_from_constructor", "key_from_gen_keypair", "key_with_jacobian_public_point", "retry:r=0", "retry:r+k=n", "retry:s=0", "digest_regular"]);
     let c = r2::curve();
 
     // --- Annex example through the library with the nonce injected
@@ -52,6 +52,81 @@ pub fn run(ctx: &mut Ctx) {
         ctx.class("annex_kat");
         fixed_case(ctx, &d, None, DEFAULT_ID, b"message digest", &k, "annex_kat");
         ctx.sample(json!({"annex": {"d": "3945208F..C5B8", "k": "59276E27..BC21", "msg": "message digest", "r": "F5A03B06..20B3", "s": "B1B6AA29..C1AA"}}));
+    }
+
+    // --- digest level (hook `verif_sign_digest`): e is chosen so that the injected nonce meets one of the standard's
+    // three retry conditions (r = 0, r + k = n, s = 0), which no message can be made to hash to. The signer must not
+    // emit the forbidden signature: either it draws again (then the result must be the standard's value for the next
+    // nonce) or it reports an error.
+    {
+        let n = ctx.n(60, 3000);
+        let mut pd = ctx.prng("digest");
+        for i in 0..n {
+            let sub = pd.next();
+            if !ctx.mine(i) {
+                continue;
+            }
+            let mut p = Prng::new(sub, "dg");
+            let d = key_for(&mut p, (i / 4) % 40);
+            let Some(sk) = lib_sk(&d) else { continue };
+            let k = rand_scalar(&mut p, &c.n);
+            let k2 = rand_scalar(&mut p, &c.n);
+            let x1 = r2::mul(&k, &r2::g()).unwrap().0;
+            let (cls, e) = match i % 4 {
+                0 => ("retry:r=0", (&c.n - (&x1 % &c.n)) % &c.n),
+                1 => ("retry:r+k=n", (&c.n + &c.n - &k - (&x1 % &c.n)) % &c.n),
+                2 => {
+                    // s = 0  <=>  k = r d  <=>  r = k / d
+                    let r = (&k * d.modinv(&c.n).unwrap()) % &c.n;
+                    ("retry:s=0", (&r + &c.n - (&x1 % &c.n)) % &c.n)
+                }
+                _ => ("digest_regular", BigUint::from_bytes_be(&p.bytes(32))),
+            };
+            // the same residue also as e + n when that still fits in 256 bits (e is not reduced by the caller)
+            let e = if i % 8 >= 4 && (&e + &c.n).bits() <= 256 { &e + &c.n } else { e };
+            let eb = r2::b32(&e);
+            let w = json!({"d": hex::encode(r2::b32(&d)), "e": hex::encode(eb), "k": hex::encode(r2::b32(&k)), "k_next": hex::encode(r2::b32(&k2)), "class": cls});
+            ctx.eval();
+            ctx.class(cls);
+            ctx.distinct("digest", &[&r2::b32(&d), &eb, &r2::b32(&k)]);
+            let first = r2::sign_e(&d, &e, &k);
+            if (cls != "digest_regular") != first.is_none() {
+                ctx.violation("harness:crafted-retry-condition-not-reproduced", w.clone());
+                continue;
+            }
+            rng_prepare(&[&k, &k2]);
+            let o = guard(|| sk.verif_sign_digest(&eb));
+            let seen = rng_seen();
+            match o {
+                Outcome::Ret(Ok(sig)) => {
+                    let used = r2::recover_nonce(&d, &sig);
+                    let (r, s_) = (r2::from_b(&sig[..32.min(sig.len())]), r2::from_b(&sig[32.min(sig.len())..]));
+                    if sig.len() != 64 || r.is_zero() || s_.is_zero() || r >= c.n || s_ >= c.n {
+                        ctx.violation(&format!("sign(digest):{}:component-out-of-range", cls), json!({"case": w, "sig": hx(&sig)}));
+                    } else if first.is_none() && used == k {
+                        ctx.violation(&format!("sign(digest):{}:signature-made-with-the-nonce-that-must-be-retried", cls), json!({"case": w, "sig": hx(&sig)}));
+                    } else if !r2::verify_e(&r2::mul(&d, &r2::g()).unwrap(), &e, &sig) {
+                        ctx.violation(&format!("sign(digest):{}:rejected-by-reference-verifier", cls), json!({"case": w, "sig": hx(&sig)}));
+                    } else {
+                        // exact value when the injected nonces were the ones drawn
+                        let want = match first {
+                            Some(v) => Some(v),
+                            None => r2::sign_e(&d, &e, &k2),
+                        };
+                        let drawn_ok = seen.accepted.first() == Some(&k) && (first.is_some() || seen.accepted.get(1) == Some(&k2));
+                        if let (Some((wr, ws)), true) = (want, drawn_ok) {
+                            if sig[..32] != wr || sig[32..] != ws {
+                                ctx.violation(&format!("sign(digest):{}:signature-differs-from-standard", cls), json!({"case": w, "sig": hx(&sig)}));
+                            } else if first.is_none() {
+                                ctx.class("retry_then_standard_value");
+                            }
+                        }
+                    }
+                }
+                Outcome::Ret(Err(_)) if first.is_none() => ctx.class("retry_condition_reported_as_error"),
+                o => ctx.violation(&format!("sign(digest):{}:{}", cls, oc(&o)), w),
+            }
+        }
     }
 
     // --- crafted: messages whose digest e = SM3(ZA||M) is >= n (reduction of e mod n matters), found once by search
